@@ -376,6 +376,12 @@ def make_case(g):
             rng.shuffle(types)
         base = g.get('type_base', 0)
         specs = [{'prefix': w, 'units': [], 'min': 0, 'max': 0, 't': base + t} for w, t in zip(words, types)]
+        if g.get('case_insensitive'):
+            # the patterns are written (a|A)(b|B)(c|C) (see case_job): the oracle knows both spellings
+            specs += [{'prefix': w.upper(), 'units': [], 'min': 0, 'max': 0, 't': base + t} for w, t in zip(words, types)]
+        if g.get('one_alternation'):
+            for sp in specs:
+                sp['t'] = base
         if g.get('ident'):
             # the usual companion of a keyword list: an identifier pattern of lowest priority
             specs.append({'prefix': '', 'units': list(g['alpha']), 'min': 1, 'max': None, 't': base + len(words)})
@@ -385,6 +391,8 @@ def make_case(g):
             # separated by a character no pattern matches (every word still starts a fresh match)
             pre = sorted(set(w[:-1] for w in words if len(w) > 1))
             inputs += [('keywords_joined', ' '.join(words[k:k + j])) for k in range(0, len(words), j)]
+            if g.get('case_insensitive'):
+                inputs += [('keywords_upper_joined', ' '.join(w.upper() for w in words[k:k + j])) for k in range(0, len(words), j)]
             inputs += [('minus_last_joined', ' '.join(pre[k:k + j])) for k in range(0, len(pre), j)]
         else:
             inputs += [('keyword', w) for w in words]
@@ -423,11 +431,23 @@ def make_case(g):
         if t not in seen:
             seen.add(t)
             ins.append((c, t))
-    return {'specs': specs, 'inputs': ins}
+    return {'specs': specs, 'inputs': ins, 'words': words if kind == 'keywords' else None}
 
 
 def case_job(case, g):
     pats = [{'p': spec_regex(s), 't': s['t']} for s in case['specs']]
+    if g.get('one_alternation'):
+        # ONE pattern whose own Thompson NFA is huge (a balanced alternation of all keywords)
+        def bal(ws):
+            if len(ws) == 1:
+                return ws[0]
+            h = len(ws) // 2
+            return '(' + bal(ws[:h]) + '|' + bal(ws[h:]) + ')'
+        pats = [{'p': bal(case['words']), 't': g.get('type_base', 0)}]
+    elif g.get('case_insensitive'):
+        # patterns that do not start with a plain literal
+        base = [sp for sp in case['specs'] if sp['prefix'] in set(case['words'])]
+        pats = [{'p': ''.join('(%s|%s)' % (ch, ch.upper()) for ch in sp['prefix']), 't': sp['t']} for sp in base]
     job = {'kind': 'c17_build', 'modes': [{'name': 'M', 'patterns': pats, 'transitions': []}],
            'inputs': [t for _, t in case['inputs']], 'high': g.get('high', 65536),
            'minlog_max_states': g.get('minlog_max_states', 0)}
@@ -446,6 +466,11 @@ def short(s, n=120):
 REAL_KEYWORDS = {'gen': 'keywords', 'alpha': 'abcdefg', 'len': 5, 'n': 13200, 'concats': 300, 'all_concat': True, 'join': 200,
                  'seed': 17, 'real_size': True}
 _LETTERS = 'abcdefghijklmnopqrstuvwxyzABCDEFGHIJKLMNOPQRSTUVWXYZ0123456789'
+# one pattern with more than 2^16 NFA states, and many patterns that do not start with a literal (> 2^16 NFA states in the mode)
+REAL_ALTERNATION = {'gen': 'keywords', 'alpha': 'abcdefghijklmnopqrstuvwxyz', 'len': 3, 'n': 8400, 'concats': 50, 'join': 200,
+                    'seed': 21, 'real_size': True, 'one_alternation': True}
+REAL_NOCASE = {'gen': 'keywords', 'alpha': 'abcdefghijklmnopqrstuvwxyz', 'len': 3, 'n': 3700, 'concats': 50, 'join': 200,
+               'seed': 22, 'real_size': True, 'case_insensitive': True}
 REAL_CHAINS = {'gen': 'rep', 'seed': 18, 'real_size': True, 'less': [2, 7, 993],
                'patterns': [{'prefix': _LETTERS[i // 2] + 'xy'[i % 2], 'units': ['a', 'b'], 'min': 1000, 'max': 1000, 't': 100 + i}
                             for i in range(66)]}
@@ -748,7 +773,7 @@ class C17:
             if not ok:
                 out.broken.append({'what': 'release harness does not build', 'detail': log[-3000:]})
             else:
-                real = [dict(REAL_KEYWORDS)]
+                real = [dict(REAL_KEYWORDS), dict(REAL_ALTERNATION), dict(REAL_NOCASE)]
                 if tier == 'thorough':
                     real.append(dict(REAL_CHAINS))
                     if os.environ.get('VERIF_C17_PURE_REP'):
